@@ -663,6 +663,7 @@ func TestC22(t *testing.T) {
 	// process was starved is not a disagreement of the code with the specification. (The
 	// check replays every reported failure once more in a fresh process.)
 	reran := 0
+	confirmed := map[string]int{}
 	for i, r := range results {
 		if r.harness != "" {
 			record(cases[i], r)
@@ -671,7 +672,13 @@ func TestC22(t *testing.T) {
 		if r.fail == nil {
 			continue
 		}
-		if reran < 24 {
+		sig := fmt.Sprint(r.fail.Match)
+		if confirmed[sig] >= 1 {
+			// this kind of failure has already been reproduced alone
+			record(cases[i], r)
+			continue
+		}
+		if reran < 10 {
 			reran++
 			ResetWaitBudget()
 			attempts := 1
@@ -692,6 +699,9 @@ func TestC22(t *testing.T) {
 			}
 			results[i] = again
 			r = again
+			if r.fail != nil {
+				confirmed[fmt.Sprint(r.fail.Match)]++
+			}
 		}
 		record(cases[i], r)
 	}
